@@ -28,6 +28,7 @@ import (
 	"strconv"
 	"strings"
 	"sync"
+	"sync/atomic"
 	"time"
 
 	"rare/pkg/extractor/batchers"
@@ -85,6 +86,10 @@ func c05Logger(f []string) string {
 	if ctl == "." {
 		ctl = ""
 	}
+	var exits int64
+	savedExit := logger.OsExit
+	logger.OsExit = func(code int) { atomic.AddInt64(&exits, 1) }
+	defer func() { logger.OsExit = savedExit }()
 	lines := captureStderr(func() {
 		var wg sync.WaitGroup
 		start := make(chan struct{})
@@ -94,6 +99,17 @@ func c05Logger(f []string) string {
 				defer wg.Done()
 				<-start
 				for k := 0; k < m; k++ {
+					if k == m-1 && i%2 == 1 { // the last message of every other goroutine goes through Fatal* (OsExit is a recorder)
+						switch i % 3 {
+						case 0:
+							logger.Fatalf(3, "g%d-m%d", i, k)
+						case 1:
+							logger.Fatalln(4, fmt.Sprintf("g%d-m%d", i, k))
+						default:
+							logger.Fatal(5, "g", i, "-m", k)
+						}
+						continue
+					}
 					switch (i + k) % 3 {
 					case 0:
 						logger.Printf("g%d-m%d", i, k)
@@ -135,6 +151,9 @@ func c05Logger(f []string) string {
 		}
 	}
 	if len(lines) != g*m {
+		once = 0
+	}
+	if m > 0 && int(exits) != g/2 { // every Fatal* call reached OsExit exactly once
 		once = 0
 	}
 	c05LogLines += len(lines)
